@@ -199,6 +199,11 @@ pub fn parse_typed(ty: &str, v: &str) -> Option<String> {
         "u8" => v.parse::<u8>().ok().map(|x| format!("{:?}", x)),
         "i16" => v.parse::<i16>().ok().map(|x| format!("{:?}", x)),
         "f32" => v.parse::<f32>().ok().map(|x| format!("{:?}", x)),
+        "i8" => v.parse::<i8>().ok().map(|x| format!("{:?}", x)),
+        "u128" => v.parse::<u128>().ok().map(|x| format!("{:?}", x)),
+        "f64" => v.parse::<f64>().ok().map(|x| format!("{:?}", x)),
+        "usize" => v.parse::<usize>().ok().map(|x| format!("{:?}", x)),
+        "i64" => v.parse::<i64>().ok().map(|x| format!("{:?}", x)),
         "char" => v.parse::<char>().ok().map(|x| format!("{:?}", x)),
         "bool" => v.parse::<bool>().ok().map(|x| format!("{:?}", x)),
         "&str" => Some(format!("{:?}", v)),
